@@ -16,7 +16,7 @@ EXPLANATION = (
     "unique_any_sender does not convert to any_sender (R4). Not decided: observational equivalence of wrapped and "
     "unwrapped executions.")
 ASSUMPTIONS = ["the default configuration (PIKA_DETAIL_ENABLE_ANY_SENDER_SBO off) stores every sender on the heap; the embedded-storage configuration is analysed in the thorough tier"]
-FLOORS = {"C18.R1": 10, "C18.R2": 4, "C18.R3": 4, "C18.R4": 7, "C18.R5": 1}
+FLOORS = {"C18.R1": 10, "C18.R2": 4, "C18.R3": 4, "C18.R4": 7, "C18.R5": 1, "C18.R6": 6}
 
 MS = "pika::detail::movable_sbo_storage"
 CS = "pika::detail::copyable_sbo_storage"
@@ -184,6 +184,41 @@ def run(rep, tier):
                         "with set_error" % ("no try block" if tid is None else "handler does not call set_error"))
     if n5 < 1:
         raise AnalysisBroken("C18.R5: no forwarding call examined")
+
+    # ---- R6: every forwarding layer of the erasure forwards, exactly once, through its own channel
+    rep.rule("C18.R6", "K3: the type-erased layers change nothing observable: any_receiver::set_error / set_stopped and any_receiver_ref::set_value / set_error / set_stopped call the "
+             "same member of what they wrap exactly once on every path; any_operation_state_holder_impl::start, any_operation_state_holder::start and any_operation_state::start "
+             "start the operation they hold exactly once - a layer that drops the call leaves the wrapped pipeline without a completion / never started")
+    FW = facts(rep, driver("c18_erasure.cpp"), [r"^pika::execution::experimental::detail::any_receiver(_ref)?::set_(value|error|stopped)$",
+                                                r"^pika::execution::experimental::detail::any_operation_state(_holder|_holder_impl)?::start$",
+                                                r"^pika::execution::experimental::detail::any_operation_state_holder::start$"])
+    FWC = facts(rep, lib("execution_base", "src/any_sender.cpp"), [r"any_operation_state_holder::start$"])
+    n6 = 0
+    seen6 = set()
+    for Fx in (FW, FWC):
+        for f in Fx.fns:
+            if f.parent != -1:
+                continue
+            short = f.qname.rsplit("::", 1)[-1]
+            cls = f.qname.rsplit("::", 2)[-2] if f.qname.count("::") >= 2 else ""
+            if not (cls.startswith("any_receiver") or cls.startswith("any_operation_state")):
+                continue
+            key6 = (f.qname, f.pattern)
+            if key6 in seen6 or (cls == "any_receiver" and short == "set_value"):
+                continue            # any_receiver::set_value is decided by R5 (guarded forwarding)
+            seen6.add(key6)
+            if not any(True for _ in f.all_events()) and f.pattern:
+                continue
+            same = lambda e, short=short: e.get("k") == "call" and (callee_short(e) == short or callee_of(e).endswith("::" + short)) and (e.get("recv") is not None or callee_of(e).startswith("pika::execution::experimental::"))
+            cf = CountFlow(f, lambda e, pos, same=same: 1 if same(e) else 0)
+            n6 += 1
+            if cf.exits == frozenset([1]):
+                rep.ok("C18.R6", f, "%s::%s forwards to the wrapped %s exactly once" % (cls, short, short))
+            else:
+                rep.bad("C18.R6", f, f.loc, "forward:%s::%s" % (cls, short), "%s::%s calls %s of what it wraps %s times depending on the path (expected exactly once): the wrapped "
+                        "receiver is never completed / the held operation never started" % (cls, short, short, sorted(cf.exits)))
+    if n6 < 6:
+        raise AnalysisBroken("C18.R6 examined only %d forwarding members" % n6)
 
     # ---- R2
     for cls, what in (("empty_unique_any_sender", "unique_any_sender"), ("empty_any_sender", "any_sender")):
